@@ -13,12 +13,6 @@ Lemma pin_wcparse_RE_MAGIC_ESCAPE_0 : ReSrc.wcparse_RE_MAGIC_ESCAPE_0 = [40; 91;
 Proof. reflexivity. Qed.
 Lemma pin_wcparse_RE_MAGIC_ESCAPE_1 : ReSrc.wcparse_RE_MAGIC_ESCAPE_1 = [40; 91; 45; 33; 126; 42; 63; 40; 41; 92; 91; 92; 93; 124; 123; 125; 93; 124; 40; 63; 60; 33; 92; 92; 41; 40; 63; 58; 40; 63; 58; 91; 92; 92; 93; 123; 50; 125; 41; 42; 41; 92; 92; 40; 63; 33; 92; 92; 41; 41]%N.
 Proof. reflexivity. Qed.
-Lemma pin_wcparse_RE_NO_DIR_0 : ReSrc.wcparse_RE_NO_DIR_0 = [94; 40; 63; 115; 58; 46; 42; 63; 40; 63; 58; 47; 92; 46; 123; 49; 44; 50; 125; 47; 42; 124; 47; 41; 124; 92; 46; 123; 49; 44; 50; 125; 47; 42; 41; 92; 90]%N.
-Proof. reflexivity. Qed.
-Lemma pin_wcparse_RE_NO_DIR_1 : ReSrc.wcparse_RE_NO_DIR_1 = [94; 40; 63; 115; 58; 46; 42; 63; 40; 63; 58; 47; 92; 46; 123; 49; 44; 50; 125; 47; 42; 124; 47; 41; 124; 92; 46; 123; 49; 44; 50; 125; 47; 42; 41; 92; 90]%N.
-Proof. reflexivity. Qed.
-Lemma pin_wcparse_RE_POSIX : ReSrc.wcparse_RE_POSIX = [58; 40; 97; 108; 110; 117; 109; 124; 97; 108; 112; 104; 97; 124; 97; 115; 99; 105; 105; 124; 98; 108; 97; 110; 107; 124; 99; 110; 116; 114; 108; 124; 100; 105; 103; 105; 116; 124; 103; 114; 97; 112; 104; 124; 108; 111; 119; 101; 114; 124; 112; 114; 105; 110; 116; 124; 112; 117; 110; 99; 116; 124; 115; 112; 97; 99; 101; 124; 117; 112; 112; 101; 114; 124; 119; 111; 114; 100; 124; 120; 100; 105; 103; 105; 116; 41; 58; 92; 93]%N.
-Proof. reflexivity. Qed.
 Lemma pin_wcparse_RE_TILDE_0 : ReSrc.wcparse_RE_TILDE_0 = [126; 91; 94; 47; 93; 42; 40; 63; 61; 47; 124; 36; 41]%N.
 Proof. reflexivity. Qed.
 Lemma pin_wcparse_RE_TILDE_1 : ReSrc.wcparse_RE_TILDE_1 = [126; 91; 94; 47; 93; 42; 40; 63; 61; 47; 124; 36; 41]%N.
@@ -41,10 +35,6 @@ Lemma pin_wcparse_RE_WIN_DRIVE_START : ReSrc.wcparse_RE_WIN_DRIVE_START = [40; 4
 Proof. reflexivity. Qed.
 Lemma pin_wcparse_RE_WIN_DRIVE_UNESCAPE : ReSrc.wcparse_RE_WIN_DRIVE_UNESCAPE = [92; 92; 40; 46; 41]%N.
 Proof. reflexivity. Qed.
-Lemma pin_wcparse_RE_WIN_NO_DIR_0 : ReSrc.wcparse_RE_WIN_NO_DIR_0 = [94; 40; 63; 115; 58; 46; 42; 63; 40; 63; 58; 91; 92; 92; 47; 93; 92; 46; 123; 49; 44; 50; 125; 91; 92; 92; 47; 93; 42; 124; 91; 92; 92; 47; 93; 41; 124; 92; 46; 123; 49; 44; 50; 125; 91; 92; 92; 47; 93; 42; 41; 92; 90]%N.
-Proof. reflexivity. Qed.
-Lemma pin_wcparse_RE_WIN_NO_DIR_1 : ReSrc.wcparse_RE_WIN_NO_DIR_1 = [94; 40; 63; 115; 58; 46; 42; 63; 40; 63; 58; 91; 92; 92; 47; 93; 92; 46; 123; 49; 44; 50; 125; 91; 92; 92; 47; 93; 42; 124; 91; 92; 92; 47; 93; 41; 124; 92; 46; 123; 49; 44; 50; 125; 91; 92; 92; 47; 93; 42; 41; 92; 90]%N.
-Proof. reflexivity. Qed.
 Lemma pin_wcparse_RE_WIN_TILDE_0 : ReSrc.wcparse_RE_WIN_TILDE_0 = [126; 40; 63; 58; 92; 92; 40; 63; 33; 91; 92; 92; 47; 93; 41; 124; 91; 94; 92; 92; 47; 93; 41; 42; 40; 63; 61; 92; 92; 92; 92; 124; 47; 124; 36; 41]%N.
 Proof. reflexivity. Qed.
 Lemma pin_wcparse_RE_WIN_TILDE_1 : ReSrc.wcparse_RE_WIN_TILDE_1 = [126; 40; 63; 58; 92; 92; 40; 63; 33; 91; 92; 92; 47; 93; 41; 124; 91; 94; 92; 92; 47; 93; 41; 42; 40; 63; 61; 92; 92; 92; 92; 124; 47; 124; 36; 41]%N.
@@ -58,12 +48,6 @@ Proof. reflexivity. Qed.
 Lemma pin_wcparse_RE_MAGIC_ESCAPE_0_flags : ReSrc.wcparse_RE_MAGIC_ESCAPE_0_flags = ""%string.
 Proof. reflexivity. Qed.
 Lemma pin_wcparse_RE_MAGIC_ESCAPE_1_flags : ReSrc.wcparse_RE_MAGIC_ESCAPE_1_flags = ""%string.
-Proof. reflexivity. Qed.
-Lemma pin_wcparse_RE_NO_DIR_0_flags : ReSrc.wcparse_RE_NO_DIR_0_flags = ""%string.
-Proof. reflexivity. Qed.
-Lemma pin_wcparse_RE_NO_DIR_1_flags : ReSrc.wcparse_RE_NO_DIR_1_flags = ""%string.
-Proof. reflexivity. Qed.
-Lemma pin_wcparse_RE_POSIX_flags : ReSrc.wcparse_RE_POSIX_flags = ""%string.
 Proof. reflexivity. Qed.
 Lemma pin_wcparse_RE_TILDE_0_flags : ReSrc.wcparse_RE_TILDE_0_flags = ""%string.
 Proof. reflexivity. Qed.
@@ -86,10 +70,6 @@ Proof. reflexivity. Qed.
 Lemma pin_wcparse_RE_WIN_DRIVE_START_flags : ReSrc.wcparse_RE_WIN_DRIVE_START_flags = "re.I"%string.
 Proof. reflexivity. Qed.
 Lemma pin_wcparse_RE_WIN_DRIVE_UNESCAPE_flags : ReSrc.wcparse_RE_WIN_DRIVE_UNESCAPE_flags = "re.I"%string.
-Proof. reflexivity. Qed.
-Lemma pin_wcparse_RE_WIN_NO_DIR_0_flags : ReSrc.wcparse_RE_WIN_NO_DIR_0_flags = ""%string.
-Proof. reflexivity. Qed.
-Lemma pin_wcparse_RE_WIN_NO_DIR_1_flags : ReSrc.wcparse_RE_WIN_NO_DIR_1_flags = ""%string.
 Proof. reflexivity. Qed.
 Lemma pin_wcparse_RE_WIN_TILDE_0_flags : ReSrc.wcparse_RE_WIN_TILDE_0_flags = ""%string.
 Proof. reflexivity. Qed.
